@@ -9,7 +9,7 @@ from typing import Any, Optional
 
 from .. import absint
 from ..core import Ctx, PropSpec
-from ..rules import calls_in, cfg_of, dominating_conditions, is_call_to, kwarg, norm
+from ..rules import calls_in, cfg_of, dominating_conditions, is_call_to, kwarg, norm, origin
 from ..srcmodel import AnalysisError, FuncInfo, Repo, dotted, src, walk_no_defs
 from .C16 import (BODY_CLS, CONV, DIFB, FORMING, MARKING, PATCH_CLS, PROG, Access, Erase, _forward_check, accesses, analyse_names,
                   arg_desc, chain_path, fmt_loc, footprint, key_desc, local_defs, param_names, prefix_is_enforced, root_kind, single_def,
@@ -538,7 +538,9 @@ def check_marker(ctx: Ctx) -> None:
     while isinstance(node, ast.If):
         adds = any(isinstance(c.func, ast.Attribute) and c.func.attr == 'add' and c.args and dotted(c.args[0]) == rp for c in calls_in(ast.Module(body=node.body, type_ignores=[])))
         if adds:
-            arms.append((node.test, rn in {x.id for x in ast.walk(node.test) if isinstance(x, ast.Name)}))
+            # `if a: add elif b: add` and `if a or b: add` are the same reader
+            for t in (node.test.values if isinstance(node.test, ast.BoolOp) and isinstance(node.test.op, ast.Or) else [node.test]):
+                arms.append((t, rn in {x.id for x in ast.walk(t) if isinstance(x, ast.Name)}))
         node = node.orelse[0] if len(node.orelse) == 1 else None
     marker_arms = [t for t, by_name in arms if by_name]
     free_arms = [t for t, by_name in arms if not by_name]
@@ -548,7 +550,7 @@ def check_marker(ctx: Ctx) -> None:
            construct=f'{rd.qualname}:keys:marker-arm')
     ctx.require_sites('R4.3', 'reader: marker-free recognition tests', len(free_arms), 1, rd.loc())
     # the (prefix, name) pairs come from splitting at the first "/"
-    it = pair_src
+    it = origin(rd, pair_src) if isinstance(pair_src, ast.Name) else pair_src      # the pairs may be named in a local first
     splits = [c for c in calls_in(it) if isinstance(c.func, ast.Attribute) and c.func.attr == 'split' and c.args and isinstance(c.args[0], ast.Constant)]
     ok_split = len(splits) == 1 and splits[0].args[0].value == '/' and len(splits[0].args) == 2 and isinstance(splits[0].args[1], ast.Constant) and splits[0].args[1].value == 1
     ctx.ob('R4.3', 'reader: keys are split into prefix and name at the first "/"', ok_split, loc=rd.loc(it), construct=f'{rd.qualname}:keys:split')
